@@ -398,7 +398,14 @@ def r16_13(ctx):
     for i, r in enumerate(rets):
         construct = f"Symbol.set_value/`return False` #{i + 1} is the failed form check"
         gs = fl.guards_at(r) or set()
-        ok = any(("value_is_valid(" in k and not p) for k, p in gs)
+        # explaining variables are read through (`valid = self.value_is_valid(value)`; `if not valid:`)
+        from .common import expand_locals, parse_key
+        def _x(k):
+            try:
+                return expand_locals(f.node, parse_key(k))
+            except Exception:
+                return k
+        ok = any(("value_is_valid(" in _x(k) and not p) or (_x(k).startswith("not ") and "value_is_valid(" in _x(k) and p) for k, p in gs)
         in_loop = any(isinstance(p_, (ast.For, ast.While)) for p_ in _up(repo, r))
         (ctx.ok(construct, f.loc(r)) if ok and not in_loop else
          ctx.bad(construct, f"the value is refused under {sorted(k for k, p in gs if p)[:3] or 'a condition evaluated at call time'}: whether an assignment of a file is accepted "
